@@ -14,7 +14,7 @@ Z == <<>>
 Init == /\ tid \in 1..Len(Programs) /\ TLCSet(tid, 0)
         /\ now = 0 /\ agenda = {} /\ seq = 1 /\ evs = <<>> /\ procs = <<>>
         /\ cur = NoCur /\ run = NoRun
-        /\ top = [mode |-> "top", uk |-> "none", ue |-> 0, n |-> 0]
+        /\ top = [mode |-> "top", uk |-> "none", ue |-> 0, ut |-> 0, n |-> 0]
         /\ log = <<>> /\ script = <<<<>>>> /\ res = <<>>
         /\ ftab = IF "ftab" \in DOMAIN Programs[tid] THEN Programs[tid].ftab ELSE IntTimes
 
